@@ -49,7 +49,7 @@ def _listing_case(draw):
     for _ in range(draw(st.integers(0, 4))):
         k = draw(st.sampled_from(["remote", "url", "search", "info", "locallink", "portonly"]))
         extra.append({"k": k, "name": draw(label), "host": draw(st.sampled_from(["other.example", "gopher.floodgap.com", "h-2.example.org"])),
-                      "port": draw(st.sampled_from([70, 7070, 105, 1])), "type": draw(st.sampled_from(["0", "1", "9", "h", "I"])),
+                      "port": draw(st.sampled_from([70, 7070, 105, 1])), "type": draw(st.sampled_from(["0", "1", "9", "h", "I", "3", "3", "2", "8", "T", "s", "g", "M", "4", "5", "6"])),
                       "sel": draw(st.sampled_from(["/", "/x", "/a b", "/d/e.txt", "/caf\xc3\xa9", "/q?x=1", "/50%25"])),
                       "url": draw(st.sampled_from(["http://www.example.org/", "https://example.org/a/b?c=d", "ftp://ftp.example.org/pub", "mailto://x@example.org",
                                                      "mailto:x@example.org", "news:comp.infosystems.gopher", "tel:+15551234"])),
